@@ -34,6 +34,15 @@ def _mkobs(cx, descs, via_gamma=False):
             o, s = lib.mk_obs(cx, tag, d)
         elif d[0] == 'cov':
             o, s = lib.mk_covobs(cx, tag, d[1], d[2])
+        elif d[0] == 'zeroens':
+            # ('zeroens', layout): the observable times a constant that lives on its own ensemble with identically vanishing fluctuations
+            # (pe.pseudo_Obs(2.0, 0.0, 'const')): that ensemble is listed in names / e_content but carries no information
+            import pyerrors as pe
+            o1, s1 = lib.mk_obs(cx, tag, d[1])
+            cst = pe.Obs([np.zeros(5) + 2.0], ['const'])
+            s2 = lib.primary_spec({'const': {c: 2.0 for c in range(1, 6)}})
+            o = o1 * cst
+            s = lib.derived_spec(lambda x: x[0] * x[1], [s1, s2])
         else:   # ('mix', layout, covname, dim): Monte Carlo part + covariance input
             o1, s1 = lib.mk_obs(cx, tag, d[1])
             o2, s2 = lib.mk_covobs(cx, tag + 'c', d[2], d[3])
@@ -67,14 +76,20 @@ def cov0_spec(sa, sb):
                 continue
             num = num + sum(sa.deltas[n][c] * sb.deltas[n][c] for c in cf)
             den = den + sqrt(sum(sa.deltas[n][c] * sa.deltas[n][c] for c in cf) * sum(sb.deltas[n][c] * sb.deltas[n][c] for c in cf))
-        if isinstance(den, int):
-            continue
+        if isinstance(den, int) or _is_zero(num) and _is_zero(den):
+            continue                 # no common configurations, or an ensemble without fluctuations: contributes nothing (the library skips it as well)
         tot = tot + core.If(num == 0, 0, num / den)
     for cn in set(sa.grads) & set(sb.grads):
         C = sa.covs[cn]
         ga, gb = sa.grads[cn], sb.grads[cn]
         tot = tot + sum(ga[i] * float(C[i, j]) * gb[j] for i in range(len(ga)) for j in range(len(gb)))
     return tot
+
+
+def _is_zero(v):
+    if not core.is_sym(v):
+        return float(v) == 0.0
+    return core.const_of(z3.simplify(core.tz(v), som=True)) == 0
 
 
 def _nondegenerate(cx, specs):
@@ -86,7 +101,7 @@ def _nondegenerate(cx, specs):
             for name in specs[i].idl:
                 if name in specs[j].idl:
                     cf = _inter(specs[i], specs[j], name)
-                    if cf:
+                    if cf and not all(_is_zero(specs[i].deltas[name][c]) for c in cf):       # an ensemble without fluctuations carries no information and is skipped by the library
                         cx.assume(sum(specs[i].deltas[name][c] * specs[i].deltas[name][c] for c in cf) > 0, 'non-degenerate data')
 
 
@@ -481,6 +496,8 @@ def jobs(tier, seed):
     add('cov', descs=[('cov', 'cv', 2), ('cov', 'cw', 1), S5], checks=['sym', 'diag', 'zero'])
     add('cov', descs=[('mix', S5, 'cv', 2), ('mix', S5, 'cv', 2)], checks=['sym', 'diag', 'general'])
     add('cov', descs=[('mix', S5, 'cv', 1), S5, ('cov', 'cv', 1)], checks=['sym', 'diag', 'general'])
+    add('cov', descs=[('zeroens', S5), S5], checks=['sym', 'diag', 'general'])      # an ensemble with identically zero fluctuations in one operand
+    add('cov', descs=[('zeroens', S5), ('zeroens', S5b)], checks=['sym', 'diag', 'general'])
     add('cov', descs=[S5, S5], checks=['diag', 'sym'], via_gamma=True)              # ties dvalue to sqrt(Gamma0/(N-1))
     add('jsj_errors', dim=1)
     add('jsj_errors', dim=2)
